@@ -355,6 +355,14 @@ class Program:
         self.renamed = _inline.alias_renamed(raws, ref, _inline.reference_meta())
         self.info["renamed_functions"] = self.renamed
         self.inline_report = _inline.inline_new(raws, ref)
+        # a closure absent from the reference tree that is handed to an Option / Result combinator: the combinator is replaced by the
+        # `match` it stands for and the closure inlined (after the new functions, so that a closure is compared by what it really calls)
+        direct = _inline.desugar_combinators(raws, ref)
+        if direct:
+            rep2 = _inline.inline_new(raws, ref, direct)
+            for k_ in ("inlined", "removed", "skipped"):
+                self.inline_report[k_] = self.inline_report[k_] + [x for x in rep2[k_] if x not in self.inline_report[k_]]
+            self.inline_report["desugared_closures"] = sorted(direct)
         self.info["inlined_new_functions"] = self.inline_report
         for p, b in raws.items():
             self.bodies[p] = Body(b, b["_crate"])
